@@ -37,7 +37,7 @@ def oracle(text, origin):
 
 def plan(tier, seed):
     if tier == 'quick':
-        shards = [(30, 16)] * 8 + [(15, 48)] * 3 + [(15, 160)] * 1
+        shards = [(30, 16)] * 8 + [(15, 48)] * 3 + [(12, 160)] * 2
     else:
         shards = [(30, 16)] * 80 + [(20, 48)] * 20 + [(10, 256)] * 20
     return [('codec-image', [seed * 100000 + 13000 + i, cnt, ext], 'c13_%d_%d' % (seed, i)) for i, (cnt, ext) in enumerate(shards)]
